@@ -3,6 +3,8 @@ package c14
 import (
 	"bytes"
 	"context"
+	"crypto/sha256"
+	"encoding/base64"
 	"encoding/hex"
 	"fmt"
 	"math/big"
@@ -307,6 +309,7 @@ func findTagged(lines []string, tag string) string {
 }
 
 type binInfo struct {
+	builds          int // wallets built inside the one process of the -sign .. -send .. -l invocation
 	refusedEmptyP39 bool
 	keys            int
 	refKeys         bool // keys were compared with reference derivation
@@ -476,6 +479,72 @@ func checkBinary(c binCase) (info binInfo, err error) {
 			}
 			if want <= 2 {
 				break
+			}
+		}
+	}
+	// some invocations build the wallet a second time inside one process (main(): -sign ... together with -send makes
+	// the wallet for sign_message() and again afterwards).  The later wallet must be the same wallet: with -l the
+	// listing then shows the keys of every build, and each build must equal the listing above; the message signature
+	// must be one of the listed key.  (The password has to come from the .secret file: stdin can be read only once.)
+	if !p39on {
+		twice := c
+		twice.Via = "file"
+		dirt, err := os.MkdirTemp("", "c14w")
+		if err != nil {
+			return info, err
+		}
+		defer os.RemoveAll(dirt)
+		argst, stdint, err := setupWallet(dirt, twice)
+		if err != nil {
+			return info, err
+		}
+		k := (want - 1) / 2
+		msg := "verif " + dump[k].addr
+		var first []byte
+		for round := 0; round < 2; round++ {
+			os.Remove(filepath.Join(dirt, "wallet.txt"))
+			rt, err := runWallet(bin, dirt, stdint, append(append([]string{}, argst...), "-sign", dump[k].addr, "-msg", msg, "-send", dump[0].addr+"=0.001", "-l")...)
+			if err != nil {
+				return info, err
+			}
+			lt, _ := os.ReadFile(filepath.Join(dirt, "wallet.txt"))
+			_, lt2 := listedLines(string(lt))
+			if rt.code != 0 || len(lt2) == 0 || len(lt2)%want != 0 {
+				return info, fmt.Errorf("wallet -sign .. -msg .. -send .. -l lists %d addresses for a wallet of %d: %s", len(lt2), want, desc(rt))
+			}
+			for i, l := range lt2 {
+				if l != lines[i%want] {
+					return info, fmt.Errorf("wallet built a second time in one process (-sign .. -send .. -l): build %d lists %q at position %d, the wallet's listing has %q", i/want+1, l, i%want, lines[i%want])
+				}
+			}
+			if round == 0 {
+				first = lt
+				info.builds = len(lt2) / want
+			} else if !bytes.Equal(first, lt) {
+				return info, fmt.Errorf("two runs of -sign .. -send .. -l list different wallets:\n%s\n---\n%s", first, lt)
+			}
+			// the message signature: 65 bytes, header 27 + recovery id (+4 for a compressed key), r, s
+			ok := false
+			for _, l := range strings.Split(rt.stdout, "\n") {
+				sig, e := base64.StdEncoding.DecodeString(strings.TrimSpace(l))
+				if e != nil || len(sig) != 65 || sig[0] < 31 || sig[0] > 34 {
+					continue
+				}
+				magic := "Bitcoin Signed Message:\n"
+				if c.Litecoin {
+					magic = "Litecoin Signed Message:\n"
+				}
+				pre := append(append([]byte{byte(len(magic))}, magic...), byte(len(msg)))
+				h1 := sha256.Sum256(append(pre, msg...))
+				h2 := sha256.Sum256(h1[:])
+				pt, rok := ec.Recover(new(big.Int).SetBytes(sig[1:33]), new(big.Int).SetBytes(sig[33:65]), new(big.Int).SetBytes(h2[:]), int(sig[0]-31))
+				if !rok || !bytes.Equal(ec.SerializeCompressed(pt), pubs[k]) {
+					return info, fmt.Errorf("the signature of %q by %s (%s) does not recover the key listed for that address", msg, dump[k].addr, l)
+				}
+				ok = true
+			}
+			if !ok {
+				return info, fmt.Errorf("wallet -sign %s -msg .. printed no signature: %s", dump[k].addr, desc(rt))
 			}
 		}
 	}
@@ -899,7 +968,28 @@ func genBinCase(t *rapid.T) binCase {
 		}
 	} else {
 		c.Password = hex.EncodeToString(genPassword(t, "pw", true))
-		if rapid.IntRange(0, 2).Draw(t, "pfx") == 0 {
+		if rapid.IntRange(0, 3).Draw(t, "pfx_sizes") == 0 {
+			// prefixes of 1..70 characters, mostly just above / at / below the sizes byte slices are allocated in,
+			// combined with short and long passwords (what is left of the allocation may or may not hold the password)
+			n := rapid.SampledFrom([]int{1, 2, 7, 8, 9, 15, 16, 17, 18, 24, 25, 26, 32, 33, 34, 36, 40, 47, 48, 49, 50, 63, 64, 65, 66, 70}).Draw(t, "pfx_n")
+			if rapid.IntRange(0, 3).Draw(t, "pfx_nrand") == 0 {
+				n = rapid.IntRange(1, 70).Draw(t, "pfx_nr")
+			}
+			p := make([]byte, n)
+			for i := range p {
+				p[i] = "abcdefghijklmnopqrstuvwxyzABCDEFGHIJKLMNOPQRSTUVWXYZ0123456789-_.:/"[rapid.IntRange(0, 66).Draw(t, "pfx_c")]
+			}
+			c.SeedPfx = hex.EncodeToString(p)
+			m := rapid.IntRange(1, 8).Draw(t, "pw_short")
+			if rapid.IntRange(0, 3).Draw(t, "pw_long") == 0 {
+				m = rapid.IntRange(9, 60).Draw(t, "pw_longn")
+			}
+			pw := make([]byte, m)
+			for i := range pw {
+				pw[i] = byte(rapid.IntRange(33, 126).Draw(t, "pw_c"))
+			}
+			c.Password = hex.EncodeToString(pw)
+		} else if rapid.IntRange(0, 2).Draw(t, "pfx") == 0 {
 			p := bytes.TrimSpace(genPassword(t, "pfx", false))
 			p = bytes.Trim(p, "\"") // (the cfg parser does not unquote seed=, but keep clear of quoting questions)
 			if len(p) > 0 {
@@ -991,6 +1081,16 @@ func TestWalletBinary(t *testing.T) {
 		pbt.AddExtra("wallet_keys_checked", int64(info.keys))
 		if info.refKeys {
 			r.Class("keys_equal_reference_derivation")
+		}
+		if info.builds >= 2 {
+			r.Class("wallet_built_twice_in_one_process")
+			if pfx, _ := hex.DecodeString(c.SeedPfx); len(pfx) > 0 {
+				r.Class("built_twice_with_seed_prefix")
+				pw, _ := hex.DecodeString(c.Password)
+				if spare := (8 - len(pfx)%8) % 8; spare > 0 && len(pw) <= spare {
+					r.Class("built_twice_prefix_password_within_8_byte_granule")
+				}
+			}
 		}
 		if info.refusedEmptyP39 {
 			r.Class("p39_empty_line_refused")
